@@ -119,3 +119,21 @@ def _constants(z3, SF, V):
 
 lemma('constants/id-wire-tables', ['C02', 'C03', 'C07', 'C08', 'C09'], _constants,
       'ID_TO_WIRE / WIRE_TO_ID / FILESYNC tables of the real constants.py against the spec function unle32')
+
+
+def _cat_split_base(z3, SF, V):
+    l, s, a = z3.Ints('l s a')
+    return [a >= 0], SF.catD(l, s, a + 0) == z3.Concat(SF.catD(l, s, a), SF.catD(l, s + a, 0))
+
+
+def _cat_split_step(z3, SF, V):
+    """induction step on b, with the hypothesis for b at the same (l, s, a)"""
+    l, s, a, b = z3.Ints('l s a b')
+    ih = SF.catD(l, s, a + b) == z3.Concat(SF.catD(l, s, a), SF.catD(l, s + a, b))
+    return [a >= 0, b >= 0, ih], SF.catD(l, s, a + (b + 1)) == z3.Concat(SF.catD(l, s, a), SF.catD(l, s + a, b + 1))
+
+
+lemma('spec/cat-split-base', ['C08', 'C09', 'C07', 'C04', 'C01'], _cat_split_base, 'catD(l,s,a+0) == catD(l,s,a) ++ catD(l,s+a,0)')
+lemma('spec/cat-split-step', ['C08', 'C09', 'C07', 'C04', 'C01'], _cat_split_step,
+      'if catD(l,s,a+b) == catD(l,s,a) ++ catD(l,s+a,b) then the same for b+1 (so the split instances added to queries are sound; '
+      'catFS and rep have the same unfolding axioms)')
